@@ -70,3 +70,37 @@ def run(ctx):
             ctx.histogram("formula_mismatch", "%s %s" % (it["name"], cls or "unclassified"))
             ctx.violation("%s charges %d, the documented formula gives %d" % (it["name"], p[1], documented),
                           {"case": gen_ops.line(it), "family": "ops", "impl": it["obs0"], "documented": documented, "class": cls})
+
+    # sha256tree on trees whose sub-trees are SHARED NODES (the statement: the cost is over the fully
+    # expanded tree whether or not sub-trees are shared). Trees given to the operator functions above
+    # are built node by node, so sharing only exists when the program creates it at run time:
+    # (sha256tree (c 1 1)), (sha256tree (c X (c X X))) with X a path into the environment, ...
+    import gen_prog, runlib
+    from gen_prog import op, q, i2a
+    shared = []
+    r = ctx.rng
+    for _ in range(ctx.scale(40, 400)):
+        # small environments and at most three levels of sharing: the model hashes the fully
+        # expanded tree with the extracted SHA-256 (~25 ms per KB)
+        env = gen.gen_tree(r, r.choice([1, 2, 3]), pool=[b"", b"\x01", b"ab", b"\x80", bytes(range(40))])
+        x = i2a(1)
+        for _ in range(r.choice([1, 2, 3])):
+            k = r.random()
+            x = op(4, x, x) if k < 0.6 else (op(4, x, op(4, q(gen.gen_atom(r)), x)) if k < 0.8 else op(4, op(4, x, x), x))
+        for f in (0x400, 0x2400):
+            shared.append(gen_prog.run_line(gen.tt(op(63, x)), gen.tt(env), f=f))
+    mo = vlib.run_model("run", shared)
+    io = vlib.run_impl("run", shared)
+    for l, a, b in zip(shared, mo, io):
+        ctx.evaluations += 1
+        if l not in ctx.distinct:
+            ctx.distinct.add(l)
+            ctx.nontrivial += 1
+        ka = gen_prog.parse_obs(a)
+        kb = gen_prog.parse_obs(b)
+        if ka[0] == "ok" and kb[0] == "ok" and ka[2] == kb[2] and ka[1] != kb[1]:
+            ctx.violation("sha256tree on a tree with shared sub-trees charges %d; the documented cost over the fully expanded tree is %d"
+                          % (kb[1], ka[1]), {"case": l[:3000], "family": "run", "impl": b, "model": a})
+        elif gen_prog.head(a) != gen_prog.head(b) and a != "skip":
+            ctx.broken.append(("correspondence", "run:sha256tree-shared", "%s\n  model: %s\n  impl : %s" % (l[:500], a, b)))
+    ctx.histogram("sha256tree_shared_cases", str(len(shared)))
